@@ -107,6 +107,14 @@ def cli_cases(rng, n):
         out.append(("btcdeb", ["0x4d" + nb.to_bytes(2, "little").hex() + big + "7551"], None)); out.append(("btcdeb", ["-v", "[0x%s]" % big], None))
         out.append(("btcc", ["0x" + big, "[0x%s OP_SIZE]" % big], None))
         out.append(("tap", ["f30544d6009c8d8d94f5d030b2e844b1a3ca036255161c479db1cca5b374dd1c", "1", "[0x%s OP_DROP OP_1]" % big, "0"], None))
+    # --tx amount prefixes with FEWER entries than the transaction has inputs, the debugged input lying beyond them (amounts[] is indexed by input)
+    for nin_, pos_ in ((2, 1), (3, 2), (3, 1)):
+        for kind_ in ("p2pkh", "p2wpkh"):
+            c = S.build(rng, kind_, nin=nin_, pos=pos_)
+            for pre in ("0.001:", "1,2:"[: (4 if nin_ == 3 else 2)] if False else "0.5:", ("1,2:" if nin_ == 3 else "7:")):
+                out.append(("btcdeb", ["--tx=" + pre + c["spend"], "--txin=" + c["fund"]], None))
+                out.append(("btcdeb", ["--tx=" + pre + c["spend"], "--txin=" + c["fund"], "--select=%d" % pos_], b"[OP_1]\n"))
+                out.append(("tap", ["--tx=" + pre + c["spend"], "--txin=" + c["fund"], "f30544d6009c8d8d94f5d030b2e844b1a3ca036255161c479db1cca5b374dd1c", "1", "51"], None))
     # a selected / matching input that references an output the funding transaction does not have
     import hashlib
     fund1 = T.make_tx(2, [(bytes(range(32)), 0, b"", 0xffffffff)], [(1000, b"\x51")], 0)
